@@ -6,6 +6,24 @@ import Heathcliff.Model.Context
 namespace HC.Spec.Ctx
 open HC HC.Ctx HC.Gen
 
+/-- THE REQUESTED SECURITY STANDARD, independent of the code: HomomorphicEncryption.org Security Standard (Albrecht et al., 2018), Table 1,
+    maximal log2(q) for ternary secrets at classical security 128 / 192 / 256 bits, degrees 1024 … 32768 (the values SEAL's `hestdparms.h` ships);
+    0 = the standard makes no statement for this degree (every non-empty modulus is then "outside the standard") -/
+def heStd128 : Nat → Nat
+  | 1024 => 27 | 2048 => 54 | 4096 => 109 | 8192 => 218 | 16384 => 438 | 32768 => 881 | _ => 0
+def heStd192 : Nat → Nat
+  | 1024 => 19 | 2048 => 37 | 4096 => 75 | 8192 => 152 | 16384 => 305 | 32768 => 611 | _ => 0
+def heStd256 : Nat → Nat
+  | 1024 => 14 | 2048 => 29 | 4096 => 58 | 8192 => 118 | 16384 => 237 | 32768 => 476 | _ => 0
+def heStandardTernary : SecLevel → Nat → Nat
+  | .None, _ => 2147483647
+  | .Tc128, n => heStd128 n
+  | .Tc192, n => heStd192 n
+  | .Tc256, n => heStd256 n
+
+/-- the degrees the standard covers -/
+def heStandardDegrees : List Nat := [1024, 2048, 4096, 8192, 16384, 32768]
+
 /-- the preconditions a valid parameter set must satisfy (`isPrime` = the primality notion in force) -/
 def validParams (isPrime : Nat → Bool) (p : Params) (sec : SecLevel) : Bool :=
   let k := p.q.length
